@@ -251,10 +251,10 @@ fn smoltcp_frame(bt: &str) -> Option<(String, String)> {
                 let f = f.replace("{closure#0}", "closure").replace("{closure#1}", "closure");
                 return Some((f, file));
             }
-            if at.starts_with("./vkit/src/runner.rs") {
+            if at.contains("vkit/src/runner.rs") {
                 continue;
             }
-            if at.starts_with("./v") || at.starts_with("/verif/") {
+            if at.starts_with("./v") || at.starts_with("/verif/") || at.contains("/harness/vkit/") || at.contains("/harness/vcheck/") {
                 return None;
             }
         } else if let Some(pos) = l.find(": ") {
